@@ -36,17 +36,28 @@ ScatClause(ps, rho, lam, o) ==
   ELSE Equations(Q(ps, rho, lam, Hdr.avogadro), Outs(o), lam)
 \* ---- relations (C04) -----------------------------------------------------------------
 Fields == {"re", "im", "inc", "coh", "abs", "incxs", "pen"}
-SameOut(a, b, tol) == \A f \in Fields : (a[f].k = b[f].k) /\ (Num(a[f]) => CloseScaled(a[f].v, b[f].v, tol, MaxD(Abs(a[f].v), Abs(b[f].v))))
+\* The incoherent terms are differences (sigma_s - sigma_c) that may cancel almost completely, so two floating-point
+\* evaluations of the same formula may differ there by far more than one ulp: they are compared on the scale of the
+\* coherent term (cross section) / of the whole SLD (incoherent SLD, which is a square root of the difference).
+FieldSame(a, b, f, tol) ==
+  /\ a[f].k = b[f].k
+  /\ Num(a[f]) =>
+       IF f = "incxs" THEN CloseScaled(a.incxs.v, b.incxs.v, tol, Add(Add(Abs(a.incxs.v), Abs(a.coh.v)), Abs(b.coh.v)))
+       ELSE IF f = "inc" THEN \/ Close(a.inc.v, b.inc.v, -6)
+                              \/ CloseScaled(a.inc.v, b.inc.v, -8, Add(Add(Abs(a.re.v), Abs(a.im.v)), Abs(a.inc.v)))
+       ELSE Close(a[f].v, b[f].v, tol)
+SameOut(a, b, tol) == \A f \in Fields : FieldSame(a, b, f, tol)
 ScaledOut(a, b, k) ==    \* b = outputs at k times the density of a
-  /\ \A f \in Fields \ {"pen"} : Num(a[f]) /\ Num(b[f]) /\ Close(Mul(a[f].v, k), b[f].v, -11)
-  /\ Num(a.pen) /\ Num(b.pen) /\ Close(a.pen.v, Mul(b.pen.v, k), -11)
+  LET ak == [f \in Fields |-> IF f = "pen" THEN [k |-> "num", v |-> a.pen.v] ELSE [k |-> "num", v |-> Mul(a[f].v, k)]]
+      bk == [b EXCEPT !.pen = [k |-> "num", v |-> Mul(b.pen.v, k)]]
+  IN SameOut(ak, bk, -11)
 RelClause(e) ==
   IF IsNoneOut(e.a) \/ IsNoneOut(e.b) THEN (IF IsNoneOut(e.a) /\ IsNoneOut(e.b) THEN "ok" ELSE "RelationBothDefined")
   ELSE IF ~AllNum(e.a) \/ ~AllNum(e.b) THEN "OutputsAreNumbers"
   ELSE IF e.rel = "density" THEN (IF ScaledOut(e.a, e.b, e.k) THEN "ok" ELSE "DensityScaling")
   ELSE IF e.rel \in {"cell", "regroup", "permute"} THEN (IF SameOut(e.a, e.b, -10) THEN "ok" ELSE "CompositionInvariance:" \o e.rel)
   ELSE IF e.rel = "energy" THEN (IF SameOut(e.a, e.b, -11) THEN "ok" ELSE "EnergyEqualsWavelength")
-  ELSE IF e.rel = "vector" THEN (IF SameOut(e.a, e.b, -13) THEN "ok" ELSE "VectorIsPointwise")
+  ELSE IF e.rel = "vector" THEN (IF SameOut(e.a, e.b, -12) THEN "ok" ELSE "VectorIsPointwise")
   ELSE "UnknownRelation"
 ConvClause(e) ==
   IF ~Close(Mul(e.E, Sq(e.lam_of_E)), KE, -12) THEN "EnergyWavelengthProduct"
@@ -90,8 +101,58 @@ CompClause(e) ==
           IN IF chk(e.comp, "Composite") # "ok" THEN chk(e.comp, "Composite")
              ELSE IF chk(e.direct, "Direct") # "ok" THEN chk(e.direct, "Direct")
              ELSE IF e.shape_ok THEN "ok" ELSE "CompositeShape"
+\* ---- D2O contrast (C16) -------------------------------------------------------------------
+\* parts of the compound with a fraction d of its labile hydrogens (atom 1-1-0) replaced by D and the rest by natural H
+RECURSIVE Substituted(_, _, _, _)
+Substituted(ps, d, hpart, dpart) ==
+  IF ps = <<>> THEN <<>>
+  ELSE LET p == Head(ps)
+       IN (IF p.atom = <<1, 1, 0>>
+           THEN << [hpart EXCEPT !.n = MulP(p.n, Sub(One, d), 14)], [dpart EXCEPT !.n = MulP(p.n, d, 14)] >>
+           ELSE <<p>>) \o Substituted(Tail(ps), d, hpart, dpart)
+\* real and imaginary SLD o of the substituted compound at unchanged cell volume (rho scales with the mass)
+SubstClause(e, d, o) ==
+  LET ps2 == Substituted(e.ps, d, e.hpart, e.dpart)
+      q == Q(ps2, e.rho, e.lam, Hdr.avogadro)          \* c of the ORIGINAL density ...
+      M0 == SumM(e.ps)                                  \* ... and the ORIGINAL mass: N = n c / M0 is unchanged
+  IN IF ~Num(o.re) \/ ~Num(o.im) THEN "D2OOutputsAreNumbers"
+     ELSE IF ~CloseScaled(MulP(o.re.v, M0, 14), MulInt(MulP(q.c, q.B.re, 14), 10), NTOL, MulInt(MulP(q.c, q.absRe, 14), 10)) THEN "SoluteIsDirectSubstitution:real"
+     ELSE IF ~CloseScaled(MulP(o.im.v, M0, 14), MulInt(MulP(q.c, q.imB, 14), 10), NTOL, MulInt(MulP(q.c, q.absRe, 14), 10)) THEN "SoluteIsDirectSubstitution:imag"
+     ELSE "ok"
+WaterClause(ps, rho, lam, o) ==
+  LET q == Q(ps, rho, lam, Hdr.avogadro)
+  IN IF ~Num(o.re) \/ ~Num(o.im) THEN "D2OOutputsAreNumbers"
+     ELSE IF ~CloseScaled(MulP(o.re.v, q.M, 14), MulInt(MulP(q.c, q.B.re, 14), 10), NTOL, MulInt(MulP(q.c, q.absRe, 14), 10)) THEN "SolventIsWater:real"
+     ELSE IF ~Close(MulP(o.im.v, q.M, 14), MulInt(MulP(q.c, q.imB, 14), 10), NTOL) THEN "SolventIsWater:imag"
+     ELSE "ok"
+Mix2(a, b, f) == Add(Mul(a, f), Mul(b, Sub(One, f)))
+MixOK(o, a, b, f, fld) == CloseScaled(o[fld].v, Mix2(a[fld].v, b[fld].v, f), -11, Add(Abs(a[fld].v), Abs(b[fld].v)))
+WaterDensityOK(e) ==      \* solvent: H2O and D2O at natural density 0.9982 (D2O scaled by the mass ratio, same cell volume)
+  /\ Close(e.rhoH2O, Sci(9982, -4), -12)
+  /\ Close(Mul(e.rhoD2O, SumM(e.psH2O)), Mul(Sci(9982, -4), SumM(e.psD2O)), -12)
+D2OClause(e) ==
+  IF "exc" \in DOMAIN e THEN "D2ORaised"
+  ELSE IF ~WaterDensityOK(e) THEN "SolventDensity"
+  ELSE IF SubstClause(e, Zero, e.o10) # "ok" THEN SubstClause(e, Zero, e.o10)
+  ELSE IF SubstClause(e, One, e.o11) # "ok" THEN SubstClause(e, One, e.o11)
+  ELSE IF SubstClause(e, e.d, e.o1d) # "ok" THEN SubstClause(e, e.d, e.o1d)
+  ELSE IF WaterClause(e.psH2O, e.rhoH2O, e.lam, e.o00) # "ok" THEN WaterClause(e.psH2O, e.rhoH2O, e.lam, e.o00)
+  ELSE IF WaterClause(e.psD2O, e.rhoD2O, e.lam, e.o01) # "ok" THEN WaterClause(e.psD2O, e.rhoD2O, e.lam, e.o01)
+  ELSE IF ~MixOK(e.o0d, e.o01, e.o00, e.d, "re") \/ ~MixOK(e.o0d, e.o01, e.o00, e.d, "im") THEN "SolventMixesLinearly"
+  ELSE IF ~MixOK(e.ovd, e.o1d, e.o0d, e.v, "re") \/ ~MixOK(e.ovd, e.o1d, e.o0d, e.v, "im") THEN "LinearInVolumeFraction"
+  ELSE LET Hs == e.o10.re.v  Ds == e.o11.re.v  Hw == e.o00.re.v  Dw == e.o01.re.v
+           den == Add(Sub(Ds, Hs), Sub(Hw, Dw))
+           scale == Add(Add(Abs(Ds), Abs(Hs)), Add(Abs(Hw), Abs(Dw)))
+       IN IF ~Num(e.dstar) \/ ~CloseScaled(Mul(e.dstar.v, den), Sub(Hw, Hs), -10, MulP(scale, MaxD(One, Abs(e.dstar.v)), 14)) THEN "MatchPoint"
+          ELSE IF ~Num(e.msld) \/ ~CloseScaled(e.msld.v, Mix2(Ds, Hs, e.dstar.v), -10, MulP(scale, MaxD(One, Abs(e.dstar.v)), 14)) THEN "MatchPointSld"
+          ELSE IF "mol" \notin DOMAIN e THEN "ok"
+          ELSE IF ~CloseScaled(e.mol.match.v, MulInt(e.dstar.v, 100), -9, MulInt(MaxD(One, Abs(e.dstar.v)), 100)) THEN "MoleculeMatchPoint"
+          ELSE IF ~CloseScaled(e.mol.sld.v, Hs, -10, scale) \/ ~CloseScaled(e.mol.Dsld.v, Ds, -10, scale) THEN "MoleculeSlds"
+          ELSE IF ~CloseScaled(e.mol.D2Osld.v, e.ovd.re.v, -10, scale) THEN "MoleculeD2Osld"
+          ELSE "ok"
 Clause(e) ==
-  CASE e.ev = "scat" -> IF ~LamOK(e) THEN "WavelengthWitness" ELSE ScatClause(e.ps, e.rho, e.lam, e.out)
+  CASE e.ev = "d2o" -> D2OClause(e)
+    [] e.ev = "scat" -> IF ~LamOK(e) THEN "WavelengthWitness" ELSE ScatClause(e.ps, e.rho, e.lam, e.out)
     [] e.ev = "rel" -> RelClause(e)
     [] e.ev = "conv" -> ConvClause(e)
     [] e.ev = "anchor" -> AnchorClause(e)
